@@ -2,6 +2,7 @@
    harness put through CommitVoteList.VerifyBlock (and through block proposal /
    import), with the harness's ground truth for every signature. *)
 From Goloop Require Export lib.Bytes Model_Quorum Model_CommitVoteList.
+From Goloop Require Import Model_VoteSet Model_FastSync.
 Open Scope N_scope.
 
 Inductive obs :=
@@ -25,8 +26,16 @@ Inductive case :=
    real = the block's own part-set id (count, hash); consumed = not rejected *)
 | CFastSync (height round : Z) (bid : bytes) (ps : psid) (real : N * bytes) (vals : list N)
             (items : list (Z * gsig)) (consumed : bool)
+(* fast sync with history: `prior` = precommits of round r that reached the node
+   by gossip before ((validator position, decision id), timestamp), decision ids:
+   0 nil, others as numbered by the harness; then the list (round r, part set ps,
+   items) is delivered with block bid; dl = decision id of the list's own votes;
+   good = the decision ids whose part set is the delivered block's *)
+| CFastSyncH (prior : list (N * N * Z)) (height round : Z) (bid : bytes) (ps : psid) (dl : N)
+             (good : list N) (vals : list N) (items : list (Z * gsig)) (consumed : bool)
 (* enoughVote(voted, voters) *)
 | CEnough (voted voters : N) (r : bool).
+Arguments CFastSyncH prior height%Z round%Z bid ps dl good vals items consumed.
 Arguments CFastSync height%Z round%Z bid ps real vals items consumed.
 Arguments CVerify height%Z round%Z bid ps vals items o.
 Arguments CVerifySeq round%Z ps vals items calls.
@@ -54,6 +63,10 @@ Arguments It ts%Z s.
 
 (* the usual item: key k's precommit signature over (h, r, bid, ps) and the
    very timestamp the item carries *)
+(* a gossiped precommit: validator position, decision id, timestamp *)
+Definition Pv (i d : N) (ts : Z) : N * N * Z := (i, d, ts).
+Arguments Pv i%N d%N ts%Z.
+
 Definition Ok (h r : Z) (bid : bytes) (ps : psid) (k : N) (ts : Z) : Z * gsig :=
   (ts, Sg k h r true bid ps ts).
 Arguments Ok h%Z r%Z bid ps k%N ts%Z.
@@ -102,6 +115,9 @@ Definition check (c : case) : bool :=
       end
   | CFastSync h r bid ps real vals items consumed =>
       Bool.eqb (gt_fs_accept h r bid ps real (keys vals) items) consumed
+  | CFastSyncH prior h r bid ps dl good vals items consumed =>
+      Bool.eqb (gt_fs_process (map (fun p => (N.to_nat (fst (fst p)), snd (fst p), snd p)) prior)
+                              h r bid ps dl good (keys vals) items) consumed
   | CEnough c n r => Bool.eqb (enough (N.to_nat c) (N.to_nat n)) r
   end.
 
